@@ -499,6 +499,30 @@ fn op_parse_vic(req: &Value) -> Value {
 	}
 }
 
+/// Line geometry of a buffer as `LineBuf` computes it: total_lines, line_bounds(n) for n in 0..=total+1,
+/// index_line_number / index_col for every grapheme index.
+fn op_geometry(req: &Value) -> Value {
+	let text = req["text"].as_str().unwrap_or("").to_string();
+	let lb = LineBuf::new().with_initial(text, 0);
+	let total = lb.total_lines();
+	let bounds: Vec<Value> = (0..=total + 1).map(|n| json!(lb.line_bounds(n).map(|(s,e)| vec![s,e]))).collect();
+	json!({"total_lines": total, "bounds": bounds, "max": lb.cursor_max()})
+}
+
+/// The `Global`/`NotGlobal` motion over the whole buffer: the line numbers `-g`/`-v` will visit, in order.
+fn op_global(req: &Value) -> Value {
+	use crate::vicmd::{LineAddr, Motion, MotionCmd};
+	let text = req["text"].as_str().unwrap_or("").to_string();
+	let pattern = Val::Str(req["pattern"].as_str().unwrap_or("").to_string());
+	let range = Box::new(Motion::LineRange(LineAddr::Number(1), LineAddr::Last));
+	let motion = if req["polarity"].as_bool().unwrap_or(true) { Motion::Global(range, pattern) } else { Motion::NotGlobal(range, pattern) };
+	let mut lb = LineBuf::new().with_initial(text, 0);
+	match lb.eval_motion(None, MotionCmd(1, motion)) {
+		MotionKind::Lines(lines) => json!({"lines": lines}),
+		other => json!({"other": format!("{other:?}")}),
+	}
+}
+
 fn op_lines(req: &Value) -> Value {
 	json!({"lines": crate::get_lines(req["text"].as_str().unwrap_or(""))})
 }
@@ -529,6 +553,8 @@ fn dispatch(req: &Value) -> Value {
 		"diff" => op_diff(req),
 		"parse_vic" => op_parse_vic(req),
 		"lines" => op_lines(req),
+		"geometry" => op_geometry(req),
+		"global" => op_global(req),
 		"expand" => op_expand(req),
 		other => json!({"err": format!("unknown op {other}")}),
 	}
